@@ -92,6 +92,7 @@ def Arg.bytes : Arg → Option Bytes
 inductive Op where
   | len | getChar (pos : Nat) | setChar (pos : Nat) (ch : UInt8) | getCstr | duplicate
   | insert (src : Arg) (pos : Nat) | insertCstr (s : Option Bytes) (pos : Nat)
+  | insertSelf (pos : Nat) | appendSelf
   | append (src : Arg) | appendData (d : Option Bytes) | appendCstr (s : Option Bytes)
   | appendChar (ch : UInt8) | appendMb (v : Nat)
   | delete (pos n : Nat) | shrink | strip | noSpaces | rtz
@@ -149,6 +150,8 @@ def mutate (cd : Codec) (xs : Bytes) : Op → Option (Bytes × Bool)
   | .setChar pos ch => some (if pos < xs.length then (xs.set pos ch, true) else (xs, false))
   | .insert src pos => some (insertArg xs src.bytes pos)
   | .insertCstr s pos => some (insertArg xs (s.map cstr) pos)
+  | .insertSelf pos => some (insertAt xs pos xs)
+  | .appendSelf => some (xs ++ xs, true)
   | .append src => some (appendBytes xs src.bytes)
   | .appendData d => some (appendBytes xs d)
   | .appendCstr s => some (appendBytes xs (s.map cstr))
